@@ -591,6 +591,105 @@ def ob_handlers(run, interp):
     return ob
 
 
+
+def ob_handlers_hooked(run, interp):
+    """objects that define their own attribute hooks (restricted views are such objects): the hooks decide instead of the
+    configuration, for every handler that reaches an attribute by a peer-chosen name -- whatever the configuration says"""
+    from rpyc.core.protocol import Connection
+    HANDLERS = ["_handle_getattr", "_handle_setattr", "_handle_delattr", "_handle_callattr"]
+
+    def ob(o):
+        o.symbolic = ["config (7 switches + prefix)", "peer-chosen name: String", "handler in %s" % HANDLERS]
+        o.stubs = ["HookSpy: an object whose type defines _rpyc_getattr/_rpyc_setattr/_rpyc_delattr (each logs its call)"]
+        n = [0]
+
+        def harness(c):
+            cfg = sym_config()
+            conn = make_conn(cfg)
+            h = HANDLERS[c.choose(len(HANDLERS), "handler")]
+            name = SymStr(z3.String("name"))
+            obj = HookSpy()
+            c.notes.update(h=h, cfg=cfg)
+            f = getattr(Connection, h)
+            if h in ("_handle_getattr", "_handle_delattr"):
+                return interp.call(f, (conn, obj, name))
+            if h == "_handle_setattr":
+                return interp.call(f, (conn, obj, name, "VALUE"))
+            return interp.call(f, (conn, obj, name, (1,), (("k", 2),)))
+
+        res, ex = explore(harness, deadline=run.deadline)
+        o.paths = summarize_paths(res)
+        if ex.incomplete:
+            o.verdict = "inconclusive"
+            o.detail = ex.incomplete
+            return
+        name_t = z3.String("name")
+        for r in res:
+            c = r.ctx
+            if r.outcome == "abort":
+                continue
+            if r.outcome == "bound":
+                raise core.BoundExceeded(str(r.exc))
+            h = c.notes["h"]
+            want = {"_handle_getattr": "hook_get", "_handle_callattr": "hook_get", "_handle_setattr": "hook_set", "_handle_delattr": "hook_del"}[h]
+            hooks = [e for e in c.log if e[0].startswith("hook_")]
+            direct = [e for e in c.log if e[0] in ("getattr", "setattr", "delattr")]
+            bad = None
+            conds = []
+            if r.outcome != "return":
+                bad = "%s on an object with its own hooks raised %s (the configuration decided instead of the hook)" % (h, type(r.exc).__name__)
+            elif len(hooks) != 1 or hooks[0][0] != want or direct:
+                bad = "%s on an object with its own hooks: hook calls %r, direct accesses %r" % (h, [e[0] for e in hooks], [e[0] for e in direct])
+            else:
+                conds.append(V.term(hooks[0][1]) == name_t)
+            n[0] += 1
+            model = None
+            if bad is None and conds:
+                holds, model = core.with_ctx(c, c.must_hold, z3.And(*conds))
+                if not holds:
+                    bad = "%s passed another name to the object's hook" % h
+            if bad and len(o.violations) < 3:
+                m = model or core.with_ctx(c, c.check_model)
+                if m is None:
+                    continue
+                cex = dict((k, z3.is_true(m.eval(v.e, model_completion=True))) for k, v in c.notes["cfg"].items() if isinstance(v, V.SymBool))
+                cex["exposed_prefix"] = V.z3str_to_py(m.eval(z3.String("prefix"), model_completion=True))
+                cex["name"] = V.z3str_to_py(m.eval(name_t, model_completion=True)) or "x"
+                cex["handler"] = h
+                sig = "hooked:%s" % h
+                if any(v["signature"] == sig for v in o.violations):
+                    continue
+                run.replay(o, sig, "%s (config %s)" % (bad, dict((k, v) for k, v in cex.items() if k.startswith("allow"))), REPLAY_HEAD + """
+cex = %r
+cfg = dict(DEFAULT_CONFIG)
+for k, v in cex.items():
+    if k in cfg: cfg[k] = v
+conn = object.__new__(Connection); conn._closed = True; conn._config = cfg
+log = []
+class Hooked(object):
+    def _rpyc_getattr(self, n):
+        log.append(("hook_get", n)); return (lambda *a, **k: "called")
+    def _rpyc_setattr(self, n, v): log.append(("hook_set", n))
+    def _rpyc_delattr(self, n): log.append(("hook_del", n))
+o = Hooked(); h = cex["handler"]; name = cex["name"]
+want = {"_handle_getattr": "hook_get", "_handle_callattr": "hook_get", "_handle_setattr": "hook_set", "_handle_delattr": "hook_del"}[h]
+f = getattr(Connection, h)
+try:
+    if h in ("_handle_getattr", "_handle_delattr"): f(conn, o, name)
+    elif h == "_handle_setattr": f(conn, o, name, "VALUE")
+    else: f(conn, o, name, (1,), (("k", 2),))
+    exc = None
+except Exception as e:
+    exc = e
+print("log", log, "exc", repr(exc))
+if exc is not None or log != [(want, name)]:
+    print("REPRODUCED"); sys.exit(1)
+""" % (cex,))
+        if n[0] < 4:
+            raise core.HarnessError("reachability twin: only %d hooked paths" % n[0])
+    return ob
+
+
 def replay_handler(cex):
     return REPLAY_HEAD + '''
 cex = %r
@@ -931,6 +1030,8 @@ def main():
     run.obligation("O1_check_attr", "_check_attr == policy_spec for all switch settings, any prefix, any name", ob_check_attr(run, interp))
     run.obligation("O2_access_attr", "_access_attr: name typing, own hooks override, default accessor on the checked name", ob_access_attr(run, interp))
     run.obligation("O3_handlers", "every handler taking a peer-chosen name touches only what the policy permits for that operation kind", ob_handlers(run, interp))
+    run.obligation("O3b_handlers_hooked", "on an object with its own attribute hooks every by-name handler goes through the hook, whatever the configuration",
+                   ob_handlers_hooked(run, interp))
     run.obligation("O4_service_hooks", "Service denies set/del on itself for every name", ob_service_hooks(run, interp))
     run.obligation("O5_restricted", "restricted() permits exactly the listed names", ob_restricted(run, interp))
     run.obligation("O6_isolation", "a default connection opened after any history has the default policy", ob_isolation(run, interp))
